@@ -232,13 +232,18 @@ func (h *hexec) Run(task *exec.Task) {
 		canLose := h.lostLeft > 0 && h.row[task]+1+h.env.chaos < exec.VerifC03MaxConsecutiveLost
 		if canLose {
 			n = 2
+			h.lostLeft-- // reserve before the Choose point (a scheduling point)
 		}
 		if h.env.allowErr {
 			n = 3
 		}
 		c := vsched.Choose("outcome:"+tname(task), n)
+		vsched.Touch(monitorKey)
 		if c == 1 && !canLose {
 			c = 0
+		}
+		if canLose && c != 1 {
+			h.lostLeft++ // not used
 		}
 		outcome = c
 	}
@@ -251,9 +256,6 @@ func (h *hexec) Run(task *exec.Task) {
 		task.Set(exec.TaskOk)
 	case 1:
 		h.row[task]++
-		if depsOK && !h.env.alwaysLost {
-			h.lostLeft--
-		}
 		h.stableOK[task] = false
 		task.Set(exec.TaskLost)
 	case 2:
@@ -281,13 +283,17 @@ func (h *hexec) maybeChaos(site string) {
 	if len(cands) == 0 {
 		return
 	}
+	// Take the token before the Choose point (a scheduling point): otherwise two runs
+	// that reach this step concurrently would both pass the budget test above.
+	h.chaosLeft--
 	c := vsched.Choose("chaos@"+site, len(cands)+1)
 	if c == 0 {
+		vsched.Touch(monitorKey)
+		h.chaosLeft++
 		return
 	}
 	t := cands[c-1]
 	vsched.Touch(monitorKey)
-	h.chaosLeft--
 	h.stableOK[t] = false
 	if t.State() == exec.TaskOk {
 		t.Set(exec.TaskLost)
